@@ -191,6 +191,21 @@ int HTPinit(filerec_t *file_rec, int16 ndds)
                       (g_seqA != 0 && g_byteA == NIL_BYTE((g_offA - MAGICLEN - NDDS_SZ - OFFSET_SZ) % DD_SZ)))
     __CPROVER_ensures((g_offA < MAGICLEN || g_offA >= MAGICLEN + NDDS_SZ + OFFSET_SZ + NDDS_NORM(ndds) * DD_SZ) ==> g_seqA == 0);
 
+/* C12/C17/C20: opening an existing file decodes the DD chain exactly and computes the end of the file as the end of the last
+   thing in it -- data elements AND descriptor blocks (new space is handed out from there). */
+unsigned char g_image[MAGICLEN + 2 * (NDDS_SZ + OFFSET_SZ + H4V_MAXNDDS * DD_SZ)];
+int32 g_blk2_off;  /* offset of the second block in the image, 0: only one block */
+#define IMG16(o) ((uint16)((g_image[o] << 8) | g_image[(o) + 1]))
+#define IMG32(o) ((int32)(((uint32)g_image[o] << 24) | ((uint32)g_image[(o) + 1] << 16) | ((uint32)g_image[(o) + 2] << 8) | g_image[(o) + 3]))
+#define IMG_DD(b, i) ((b) + NDDS_SZ + OFFSET_SZ + (i)*DD_SZ)
+static int HTIregister_tag_ref(filerec_t *file_rec, dd_t *dd_ptr)
+    __CPROVER_requires(dd_ptr != NULL && dd_ptr->tag != DFTAG_NULL)
+    __CPROVER_assigns()
+    __CPROVER_ensures(__CPROVER_return_value == SUCCEED || __CPROVER_return_value == FAIL);
+
+/* HTPstart: checked at harness level (h_HTPstart) -- enforcing a contract with a whole-object frame on this function made the
+   dfcc write-set instrumentation run cbmc out of memory (357k steps, 19.8k VCCs).  The clauses are the H4V_CHECKs below. */
+
 #ifdef H4V_NATIVE
 #include "h4v_native_wrap.h"
 #endif
@@ -385,4 +400,62 @@ h_HTPinit(void)
     H4V_COVER(r == SUCCEED && g_seqA != 0, "HTPinit ghost byte written");
     H4V_COVER(r == FAIL && g_hp_failed, "HTPinit fault");
     H4V_CANARY("HTPinit end");
+}
+
+H4V_DECL_ND(uint8);
+void
+h_HTPstart(void)
+{
+    mk_frec(1);
+    /* g_image is a global: nondeterministic at harness start under dfcc (every descriptor byte of the file image is
+       arbitrary); the two block headers are written concretely so that block sizes are constants for cbmc */
+#ifndef H4V_TWO_BLOCKS
+#define H4V_TWO_BLOCKS 0
+#endif
+    {
+        const int b2 = MAGICLEN + NDDS_SZ + OFFSET_SZ + H4V_MAXNDDS * DD_SZ;
+        g_image[MAGICLEN] = 0; g_image[MAGICLEN + 1] = H4V_MAXNDDS;
+        g_image[MAGICLEN + 2] = 0; g_image[MAGICLEN + 3] = 0; g_image[MAGICLEN + 4] = 0; g_image[MAGICLEN + 5] = H4V_TWO_BLOCKS ? b2 : 0;
+        g_image[b2] = 0; g_image[b2 + 1] = H4V_MAXNDDS;
+        g_image[b2 + 2] = 0; g_image[b2 + 3] = 0; g_image[b2 + 4] = 0; g_image[b2 + 5] = 0;
+    }
+    g_img     = g_image;
+    g_img_len = sizeof(g_image);
+    g_blk2_off = H4V_TWO_BLOCKS ? MAGICLEN + NDDS_SZ + OFFSET_SZ + H4V_MAXNDDS * DD_SZ : 0;
+    H4V_HAVOC(int32, g_idx);
+    /* all descriptors of the image (not only the ghost one) have representable extents */
+    for (int b = 0; b < 2; b++)
+        for (int i = 0; i < H4V_MAXNDDS; i++) {
+            int base = b == 0 ? MAGICLEN : MAGICLEN + NDDS_SZ + OFFSET_SZ + H4V_MAXNDDS * DD_SZ;
+            H4V_ASSUME(IMG32(IMG_DD(base, i) + 4) >= -1 && IMG32(IMG_DD(base, i) + 8) >= -1 &&
+                       (int64_t)IMG32(IMG_DD(base, i) + 4) + IMG32(IMG_DD(base, i) + 8) < INT32_MAX);
+        }
+    filerec_t *file_rec = g_frec;
+    H4V_ASSUME(g_idx >= 0 && g_idx < H4V_MAXNDDS);
+    int r = HTPstart(g_frec);
+    H4V_CHECK(!g_hp_failed || r == FAIL, "C16: a failed read makes HTPstart fail");
+    if (r == SUCCEED) {
+        H4V_CHECK(file_rec->ddhead != NULL && file_rec->ddhead->myoffset == MAGICLEN && file_rec->ddhead->ndds == H4V_MAXNDDS &&
+                      file_rec->ddhead->nextoffset == g_blk2_off && file_rec->ddhead->dirty == 0 && file_rec->ddhead->prev == NULL,
+                  "first DD block decoded");
+        if (g_blk2_off == 0)
+            H4V_CHECK(file_rec->ddlast == file_rec->ddhead && file_rec->ddhead->next == NULL, "single block chain");
+        else
+            H4V_CHECK(file_rec->ddlast == file_rec->ddhead->next && file_rec->ddlast->prev == file_rec->ddhead &&
+                          file_rec->ddlast->myoffset == g_blk2_off && file_rec->ddlast->ndds == H4V_MAXNDDS && file_rec->ddlast->next == NULL,
+                      "second DD block linked both ways");
+        H4V_CHECK(file_rec->ddhead->ddlist[g_idx].tag == IMG16(IMG_DD(MAGICLEN, g_idx)) &&
+                      file_rec->ddhead->ddlist[g_idx].ref == IMG16(IMG_DD(MAGICLEN, g_idx) + 2) &&
+                      file_rec->ddhead->ddlist[g_idx].offset == IMG32(IMG_DD(MAGICLEN, g_idx) + 4) &&
+                      file_rec->ddhead->ddlist[g_idx].length == IMG32(IMG_DD(MAGICLEN, g_idx) + 8) &&
+                      file_rec->ddhead->ddlist[g_idx].blk == file_rec->ddhead && file_rec->maxref >= IMG16(IMG_DD(MAGICLEN, g_idx) + 2),
+                  "C12: every descriptor is decoded from its 12 big-endian bytes");
+        H4V_CHECK(file_rec->f_end_off >= MAGICLEN + NDDS_SZ + OFFSET_SZ + H4V_MAXNDDS * DD_SZ &&
+                      (g_blk2_off == 0 || file_rec->f_end_off >= g_blk2_off + NDDS_SZ + OFFSET_SZ + H4V_MAXNDDS * DD_SZ) &&
+                      file_rec->f_end_off >= IMG32(IMG_DD(MAGICLEN, g_idx) + 4) + IMG32(IMG_DD(MAGICLEN, g_idx) + 8),
+                  "C17: the end of the file is not before the end of any descriptor block or element");
+    }
+    H4V_COVER(r == SUCCEED, "HTPstart decoded the chain");
+    H4V_COVER(r == FAIL && g_hp_failed, "HTPstart read fault");
+    H4V_CANARY("HTPstart end");
 }
